@@ -211,6 +211,20 @@ def run(chk):
             for _ in range(6 if quick else 12):
                 jobs.append((ti, rng.choice(['ctx', 'ctx', 'root']), random_steps(rng, rng.randint(1, 4))))
 
+    # fixed corpus on trees with attributes / text / comments / PIs: every axis from every node kind (attribute and
+    # namespace contexts included), and two predicates on one step (positions of the second predicate on reverse axes)
+    mixed = trees.T('e', 'b', attrs=[('k0', 'v')], text='uv', children=[
+        trees.T('e', 'y', children=[trees.T('p', target='alpha', text='d'), trees.T('e', 'x', text='uv'), trees.T('c', text='k'),
+                                    trees.T('e', 'b', text='1', tail='z1'), trees.T('e', 'b', text='t')]),
+        trees.T('e', 'y', attrs=[('k0', 'v'), ('k1', '2')])])
+    tlist.append(mixed)
+    for ti in (len(tlist) - 2, len(tlist) - 1):
+        for a in AXES:
+            jobs.append((ti, 'ctx', [(a, ('node',), [])]))
+            jobs.append((ti, 'ctx', [(a, ('node',), [('le', 3), ('pos', 1)])]))
+            jobs.append((ti, 'ctx', [(a, ('node',), [('gt', 1), ('last',)])]))
+            jobs.append((ti, 'ctx', [(a, ('node',), [('gt', 1), ('le', 2), ('pos', 1)])]))
+
     # ---- build documents once per (tree, lib)
     built = {}
 
@@ -282,7 +296,10 @@ def run(chk):
                         if want and len(steps) >= 1:
                             chk.nontrivial.add((ti, text_full, ci))
             # libxml2 cross-check of the specification (XPath 1.0 subset; element / text / comment / PI results)
-            if lib == 'lxml' and model[ji] is not None and all(a != 'namespace' for a, _, _ in steps) and ji % 2 == 0:
+            if lib == 'lxml' and model[ji] is not None and all(a != 'namespace' for a, _, _ in steps) and ji % 2 == 0 \
+                    and not (('attribute::' in text_full or '@' in text_full) and ('following::' in text_full or 'preceding::' in text_full)):
+                # (libxml2's following:: / preceding:: from an attribute node start from the owner element and so omit the
+                #  owner's descendants / include nothing of them — a documented libxml2 deviation from XPath 1.0 §2.2; skipped)
                 lnodes = {}
                 for k, n in enumerate(nodes):
                     if doc[k][0] in (1, 5, 6):
